@@ -31,8 +31,14 @@ func TestMain(m *testing.M) {
 	drv.Main(m)
 }
 
-var envKeys = []string{"SHARED", "KA", "KB", "KC"}
-var varKeys = []string{"vshared", "va", "vb"}
+// The names that tasks and stages set include names the runner itself maintains (ARGS, TASK_NAME, Args): an
+// override of one of those is an override like any other and must stay with its stage just the same.
+var envKeys = []string{"SHARED", "KA", "KB", "KC", "ARGS", "TASK_NAME"}
+var varKeys = []string{"vshared", "va", "vb", "Args"}
+
+// what a real run sees for the runner-maintained names when neither the task nor the stage sets them
+// (no arguments are passed, so ARGS and Args are empty = printed as unset)
+var runnerEnv = map[string]string{"TASK_NAME": "shared"}
 
 // Stage is one stage using the shared task.
 type Stage struct {
@@ -367,13 +373,13 @@ func runCLI(c Case, dir string) error {
 		if s.Dir != "" {
 			wd = filepath.Join(dir, s.Dir)
 		}
-		w := want(overlay(c.TaskEnv, s.Env), overlay(c.TaskVars, s.Vars), wd)
+		w := want(overlay(overlay(runnerEnv, c.TaskEnv), s.Env), overlay(c.TaskVars, s.Vars), wd)
 		if g := got[s.Name]; len(g) != 1 || g[0] != w {
 			return fmt.Errorf("stage %s printed %q, want [%q] (task settings overlaid by this stage's only); all lines: %q", s.Name, g, w, string(data))
 		}
 	}
 	if c.Direct {
-		w := want(c.TaskEnv, c.TaskVars, taskDir)
+		w := want(overlay(runnerEnv, c.TaskEnv), c.TaskVars, taskDir)
 		if g := got["direct"]; len(g) != 1 || g[0] != w {
 			return fmt.Errorf("direct run printed %q, want [%q] (the task's own settings); all lines: %q", g, w, string(data))
 		}
@@ -469,7 +475,7 @@ func runReal(c Case, dir string) error {
 	}
 	all := append(append([]Stage{}, c.P1...), c.P2...)
 	for _, st := range all {
-		w := want(overlay(c.TaskEnv, st.Env), overlay(c.TaskVars, st.Vars), wantDir[st.Name])
+		w := want(overlay(overlay(runnerEnv, c.TaskEnv), st.Env), overlay(c.TaskVars, st.Vars), wantDir[st.Name])
 		g := got[st.Name]
 		if len(g) != rep {
 			return fmt.Errorf("stage %s printed %d lines, want %d; all lines: %q", st.Name, len(g), rep, string(data))
@@ -481,7 +487,7 @@ func runReal(c Case, dir string) error {
 		}
 	}
 	if c.Direct {
-		w := want(c.TaskEnv, c.TaskVars, wantDir["direct"])
+		w := want(overlay(runnerEnv, c.TaskEnv), c.TaskVars, wantDir["direct"])
 		for _, l := range got["direct"] {
 			if l != w {
 				return fmt.Errorf("direct run printed %q, want %q (the task's own settings); all lines: %q", l, w, string(data))
